@@ -143,7 +143,7 @@ Fixpoint si_log (inside : bool) (f : nat) (w : world) (mi : nat) (name : string)
   end.
 
 (** The property's own condition for the SI ratio: in the closure of the units, prefixes and multipliers sit on unit
-    children of exponent 1.  (false also when the fuel does not cover the closure.) *)
+    children of exponent 1 (and every prefix is a valid one).  (false also when the fuel does not cover the closure.) *)
 Definition child_scale_free (c : unit_child) : bool :=
   Qeq_bool (prefix_or_zero (uc_prefix c)) 0 && Qeq_bool (uc_mult c) 0.
 Fixpoint si_cond (f : nat) (w : world) (mi : nat) (name : string) : bool :=
@@ -155,7 +155,25 @@ Fixpoint si_cond (f : nat) (w : world) (mi : nat) (name : string) : bool :=
     | Some (Import mj r) => si_cond f' w mj r
     | Some (Defs l) =>
         forallb (fun c => (Qeq_bool (uc_exp c) 1 || child_scale_free c)
+                          && (match convert_prefix (uc_prefix c) with Some _ => true | None => false end)
                           && (is_std_name (uc_ref c) || si_cond f' w mi (uc_ref c))) l
+    end
+  end.
+
+(** updateUnitMultiplier ignores the return value of its recursive call on an imported units' target (a failure there
+    silently counts as scale 1).  This predicate says that no such swallowed failure occurs in the closure. *)
+Fixpoint imports_scale_ok (fx : fixes) (f : nat) (w : world) (mi : nat) (name : string) : bool :=
+  match f with
+  | O => false
+  | S f' =>
+    match lookup w mi name with
+    | None => false
+    | Some (Import mj r) =>
+        match mult_go fx f' w mj r with
+        | Ok (Some _) => imports_scale_ok fx f' w mj r
+        | _ => false
+        end
+    | Some (Defs l) => forallb (fun c => is_std_name (uc_ref c) || imports_scale_ok fx f' w mi (uc_ref c)) l
     end
   end.
 
@@ -163,12 +181,14 @@ Fixpoint si_cond (f : nat) (w : world) (mi : nat) (name : string) : bool :=
 Definition no_bare_std_scaled (w : world) : Prop :=
   forall mi name, lookup w mi name = Some (Defs []) -> is_std_name name = true -> std_mult name == 0.
 
-(** The fragment on which the three reductions give the same scale: no imports, every exponent 1, every prefix valid,
-    every reference resolves, and a prefix / multiplier only on a reference to a standard unit or to a base unit. *)
+(** The fragment on which the three reductions give the same scale: names are not standard names, no imports, every
+    exponent 1, every prefix valid, every reference resolves, and a prefix / multiplier only on a reference to a
+    standard unit or to a (user) base unit. *)
 Fixpoint agree_cond (f : nat) (w : world) (mi : nat) (name : string) : bool :=
   match f with
   | O => false
   | S f' =>
+    negb (is_std_name name) &&
     match lookup w mi name with
     | Some (Defs l) =>
         forallb (fun c =>
@@ -176,8 +196,7 @@ Fixpoint agree_cond (f : nat) (w : world) (mi : nat) (name : string) : bool :=
           && (match convert_prefix (uc_prefix c) with Some _ => true | None => false end)
           && (is_std_name (uc_ref c)
               || match lookup w mi (uc_ref c) with
-                 | Some (Defs []) => true                                   (* user base unit *)
-                 | Some (Defs _) => child_scale_free c && agree_cond f' w mi (uc_ref c)
+                 | Some (Defs l') => (Nat.eqb (length l') 0 || child_scale_free c) && agree_cond f' w mi (uc_ref c)
                  | _ => false
                  end)) l
     | _ => false
